@@ -193,7 +193,9 @@ def _value_to_cst(value: Any) -> cst.BaseExpression:  # noqa: C901
             )
         return cst.Tuple(elements=[cst.Element(value=_value_to_cst(v)) for v in value])
     if tu.is_set(typ):
-        elems = list(value)
+        # The iteration order of a set depends on the interpreter's hash seed; the
+        # rendered literal must not.
+        elems = sorted(value, key=repr)
         if not elems:
             # empty set: set()
             return cst.Call(func=cst.Name("set"))
